@@ -313,15 +313,55 @@ package grpcgcp
 //@ cond gcpClientStream.cond uses gcpClientStream.Mutex
 //@ typeinv gcpClientStream := this.streamer != nil && this.cond != nil && this.ctx != nil
 //@
+//@ import grpc "google.golang.org/grpc"
+//@ sweepwrappers gcpClientStream
+//@ ghost $invCalls int
+//@ ghost $invCtx context.Context
+//@ ghost $invMethod string
+//@ ghost $invReq interface
+//@ ghost $invReply interface
+//@ ghost $invCC *grpc.ClientConn
+//@ ghost $invErr error
+//@ ghost $strCalls int
+//@ ghost $strCtx context.Context
+//@ ghost $strMethod string
+//@ ghost $strResult grpc.ClientStream
+//@ ghost $strErr error
+//@ ghost $sendCalls map[grpc.ClientStream]int
+//@ ghost $sendLast map[grpc.ClientStream]interface
+//@ ghost $recvCalls map[grpc.ClientStream]int
+//@
+//@ dyn local:GCPUnaryClientInterceptor.invoker(ictx, imethod, ireq, ireply, icc, iopts) (ierr)
+//@   modifies $invCalls, $invCtx, $invMethod, $invReq, $invReply, $invCC, $invErr
+//@   ensures $invCalls == old($invCalls) + 1 && $invCtx == ictx && $invMethod == imethod && $invReq == ireq && $invReply == ireply && $invCC == icc && $invErr == ierr
 //@ func GCPUnaryClientInterceptor
 //@   requires ctx != nil && invoker != nil
+//@   ensures [C12.unary-once] $invCalls == old($invCalls) + 1
+//@   ensures [C12.unary-transparent] $invMethod == method && $invReq == req && $invReply == reply && $invCC == cc && $ret0 == $invErr
+//@   ensures [C12.unary-ctx] ctx_value($invCtx, iface(gcpKey)) is *gcpContext && ctx_value($invCtx, iface(gcpKey)).(*gcpContext) != nil && ctx_value($invCtx, iface(gcpKey)).(*gcpContext).reqMsg == req && ctx_value($invCtx, iface(gcpKey)).(*gcpContext).replyMsg == reply
+//@   ensures [C12.unary-ctx-preserved] forall k interface :: {ctx_value($invCtx, k)} k != iface(gcpKey) ==> ctx_value($invCtx, k) == ctx_value(ctx, k)
 //@ func GCPStreamClientInterceptor
 //@   requires ctx != nil && streamer != nil
 //@   constructor gcpClientStream
-//@ dyn field:gcpClientStream.streamer(ctx, desc, cc, method, opts) (cs, err)
-//@   ensures err == nil ==> cs != nil
+//@ dyn field:gcpClientStream.streamer(sctx, sdesc, scc, smethod, sopts) (scs, serr)
+//@   modifies $strCalls, $strCtx, $strMethod, $strResult, $strErr
+//@   ensures serr == nil ==> scs != nil
+//@   ensures $strCalls == old($strCalls) + 1 && $strCtx == sctx && $strMethod == smethod && $strResult == scs && $strErr == serr
+//@ func google.golang.org/grpc.ClientStream.SendMsg(m) (err)
+//@   modifies $sendCalls, $sendLast
+//@   ensures $sendCalls == upd(old($sendCalls), this, old($sendCalls[this]) + 1) && $sendLast == upd(old($sendLast), this, m)
+//@ func google.golang.org/grpc.ClientStream.RecvMsg(m) (err)
+//@   modifies $recvCalls
+//@   ensures $recvCalls == upd(old($recvCalls), this, old($recvCalls[this]) + 1)
 //@ func (cs *gcpClientStream) SendMsg
+//@   ensures [C12.create-once] old(cs.ClientStream != nil) ==> $strCalls == old($strCalls) && cs.ClientStream == old(cs.ClientStream)
+//@   ensures [C12.create-first] old(cs.ClientStream == nil) ==> $strCalls == old($strCalls) + 1 && $strMethod == cs.method && ctx_value($strCtx, iface(gcpKey)) is *gcpContext && ctx_value($strCtx, iface(gcpKey)).(*gcpContext).reqMsg == m
+//@   ensures [C12.create-ok] old(cs.ClientStream == nil) && $strErr == nil ==> cs.ClientStream == $strResult && cs.ClientStream != nil
+//@   ensures [C12.create-fail] old(cs.ClientStream == nil) && $strErr != nil ==> $ret0 == $strErr && cs.initStreamErr == $strErr && cs.ClientStream == nil
+//@   ensures [C12.send-delegates] cs.ClientStream != nil ==> $sendLast[cs.ClientStream] == m && $sendCalls[cs.ClientStream] == old($sendCalls)[cs.ClientStream] + 1
 //@ func (cs *gcpClientStream) RecvMsg
+//@   interruptible_by cs.ctx
+//@   ensures [C12.recv-delegates] $ret0 == cs.initStreamErr && cs.initStreamErr != nil || (cs.ClientStream != nil && $recvCalls[cs.ClientStream] == old($recvCalls)[cs.ClientStream] + 1)
 //@   loop 1 blocking
 
 // ---------------------------------------------------------------- GCPMultiEndpoint (C10, C15, C16)
